@@ -26,6 +26,12 @@ OUTCOMES: Dict[str, Dict[str, Any]] = {
     "sync_raise": {"flavour": "sync", "outcome": "raise"},
     "ack_raises": {"ack": "sync", "_ack_raises": True},
     "timeout_slow_unwind": {"outcome": "never", "timeout": 0.2, "unwind": "gated"},
+    "raise_cancelled": {"outcome": "raise", "exc": "CancelledError"},
+    "raise_systemexit": {"outcome": "raise", "exc": "SystemExit"},
+    "sync_keyboardinterrupt": {"flavour": "sync", "outcome": "raise", "exc": "KeyboardInterrupt"},
+    "empty_payload": {"kind": "malformed", "payload": "empty"},
+    "sentinel_lookalike": {"kind": "malformed", "payload": "sentinel-lookalike"},
+    "ack_future": {"ack": "future", "gates": ["ack"]},
 }
 
 META = {
@@ -37,7 +43,8 @@ META = {
         "event: #messages in processing (callback begun, not ended) <= A and #task functions executing (started, not "
         "finished incl. their cancellation clean-up) <= A, and with A=1 processing order = "
         "delivery order. (b) leak: every history of length <= L over the outcome alphabet (return, raise, "
-        "timeout, timeout with a slow cancellation clean-up, no-result, malformed, unknown, backend failure, failing "
+        "timeout, timeout with a slow cancellation clean-up, CancelledError / SystemExit / KeyboardInterrupt raised by the task, no-result, "
+        "malformed, empty payload, payload equal to the internal end marker, unknown, ack returning a Task, backend failure, failing "
         "pre_execute/post_execute/post_save/on_error hook, sync return/raise, raising ack), bodies gated so the history is processed in every "
         "order/overlap the limit allows, followed by a saturation probe of A+1 never-finishing messages; in "
         "every quiescent state where the history is finished and only timers are enabled exactly A probe "
